@@ -879,6 +879,15 @@ impl VLinkFlowState {
         fut.as_mut().now_or_never()
     }
 
+    /// Sender side: `TryConsume::try_consume` (the non-waiting path used when a transaction is rolled back on drop)
+    #[cfg(feature = "transaction")]
+    pub fn sender_try_consume_now(&self, count: u32) -> Result<[u8; 4], String> {
+        use crate::util::TryConsume;
+        let s = self.sender.as_ref().expect("sender");
+        let consumer = Consumer::new(Arc::new(Notify::new()), s.clone());
+        consumer.try_consume(count).map_err(|e| format!("{:?}", e))
+    }
+
     /// Receiver side: consume credit for a complete delivery
     pub fn receiver_consume(&self, count: u32) -> Result<(), String> {
         let r = self.receiver.as_ref().expect("receiver");
